@@ -115,11 +115,20 @@ class Group(Unit):
                 with lock:
                     return f(*a, **k)
             return g
-        for attr in ("violation", "bump", "add_tlc", "sample"):
+        for attr in ("bump", "add_tlc", "sample"):
             if not getattr(getattr(ctx, attr), "_w2_locked", False):
                 w = locked(getattr(ctx, attr))
                 w._w2_locked = True
                 setattr(ctx, attr, w)
+        # violations are filed under the group's name (check.py --replay looks the unit up by name);
+        # the member that found it is kept for the replay dispatch
+        plain = getattr(ctx.violation, "_w2_plain", ctx.violation)
+
+        def violation(unit, sig, what, replay_obj):
+            with lock:
+                plain(self.name, sig, what, dict(replay_obj, member=unit))
+        violation._w2_plain = plain
+        ctx.violation = violation
         only = os.environ.get("W2_ONLY")
         failures = []
 
@@ -140,6 +149,9 @@ class Group(Unit):
             raise Inconclusive("; ".join(failures))
 
     def replay(self, ctx, data):
+        for u in self.members:
+            if u.name == data.get("member"):
+                return u.replay(ctx, data)
         return replay_case(ctx, data)
 
 
@@ -386,7 +398,7 @@ def deser_units():
         "mc_rt": McUnit(SUB, "Deser", name="Deser:mc:roundtrip"),
         "mc_tot": McUnit(SUB, "Deser", cfgkind="total", name="Deser:mc:total-all-strings"),
         "mc_neg": McUnit(SUB, "Deser", cfgkind="allocfirst", name="Deser:mc:alloc-first-control", expect="AllocBounded"),
-        "table": TableUnit("Deser:table", "deser-table", deser_gen, expect_rows=lambda ctx: 44 * 5461 + 300),
+        "table": TableUnit("Deser:table", "deser-table", deser_gen, expect_rows=lambda ctx: 45 * 5461 + 300),
         "records": RecordsUnit("Deser:records", "deser-records", "DeserTrace", deser_classify, n=(1500, 20000),
                                consts=DESER_CONSTS % (0, "{0}")),
     }
